@@ -13,7 +13,7 @@ from fractions import Fraction
 import geom
 from common import CORPUS_DIR, Ctx, call, frac, rat, shrink_list
 
-RULE = ("three kinds of case. net: 1..7 lanelets on the 1/16 grid (straight / curved strips in the four grid directions, arcs, "
+RULE = ("four kinds of case (the fourth, meets: one polygon on the 1/16 grid x 5..9 shapes placed against it - sharing an edge, part of an edge, one vertex, strictly inside, around it, 1/16 or 1/256 off an edge, across an edge, circles, rotated rectangles; shapely intersects in both argument orders vs the exact predicates). net: 1..7 lanelets on the 1/16 grid (straight / curved strips in the four grid directions, arcs, "
         "adjacent lanes sharing a boundary, successors sharing an end edge, crossing (overlapping) and far-away lanelets), built by "
         "one of seven routes (create_from_lanelet_list, add_lanelet one by one, LaneletNetwork() left empty, Scenario.add_objects, "
         "XML file, protobuf file, open_lanelet_network), then 0..5 operations (add new / known id, remove known / unknown id, each "
@@ -40,7 +40,8 @@ REQUIRED_BUCKETS = ["net/route/list", "net/route/add", "net/route/empty", "net/r
                     "net/op/remove-unknown", "net/op/addFrom", "net/op/cut", "net/op/rtree-false", "net/point/on-boundary",
                     "net/point/multi", "net/point/none", "net/shape/circ", "net/shape/rect", "net/shape/poly", "net/shape/group",
                     "net/shape/multi", "net/shape/none", "net/shape/touching", "shape/rect", "shape/circ", "shape/poly", "shape/group",
-                    "shape/on-boundary", "obst/static", "obst/set", "obst/traj", "obst/group", "obst/hit", "obst/miss"]
+                    "shape/on-boundary", "obst/static", "obst/set", "obst/traj", "obst/group", "obst/hit", "obst/miss",
+                    "meets/poly", "meets/rect", "meets/circ", "meets/touching", "meets/true", "meets/false"]
 
 BAND = Fraction(1, 10 ** 9)
 TOL = Fraction(1, 10 ** 15)
@@ -939,12 +940,149 @@ def _what(truth, truthc, ambc, i, k, spec):
     return "misses-within-half-radius" if geom.has_circle(spec) and truthc[(i, k)] and not ambc[(i, k)] else "misses"
 
 
+# ---------------------------------------------------------------------------- polygon / shape intersection on exact inputs
+
+def _interior_point(r, ring_f):
+    """A grid point at least 1/8 inside the polygon (None if none is found)."""
+    ring = geom.ring_of(ring_f)
+    xs, ys = [v[0] for v in ring_f], [v[1] for v in ring_f]
+    for _ in range(40):
+        q = [round(r.uniform(min(xs), max(xs)) * 16) / 16.0, round(r.uniform(min(ys), max(ys)) * 16) / 16.0]
+        ins, d2 = geom.point_in_ring((frac(q[0]), frac(q[1])), list(ring))
+        if ins and d2 > Fraction(1, 64):
+            return q
+    return None
+
+
+def gen_meets_case(r):
+    """One polygon on the 1/16 grid and shapes placed against it: touching along an edge, along part of an edge, in one
+    vertex, strictly inside, around it, just off an edge, across an edge, circles, and random shapes."""
+    if r.random() < 0.5:
+        ring = geom.gen_shape(r, kinds=("poly",))["v"]
+    else:
+        ring = _ring(r.choice(gen_lanelets(r, nmax=3)))
+    n = len(ring)
+    ccw = geom.shoelace(geom.ring_of(ring)) > 0
+    shapes = []
+
+    def edge(i):
+        a, b = ring[i], ring[(i + 1) % n]
+        dx, dy = b[0] - a[0], b[1] - a[1]
+        out = (dy, -dx) if ccw else (-dy, dx)            # outward normal (not normalised; grid vector)
+        return a, b, dx, dy, out
+
+    for _ in range(r.randint(5, 9)):
+        a, b, dx, dy, out = edge(r.randrange(n))
+        mid = [(a[0] + b[0]) / 2, (a[1] + b[1]) / 2]
+        k = r.choice([0.25, 0.5, 1.0])
+        apex = [mid[0] + k * out[0], mid[1] + k * out[1]]
+        what = r.choice(["edge", "part-edge", "vertex", "inside", "around", "off", "across", "rect-side", "circ", "random", "rot"])
+        if what == "edge":
+            shapes.append({"k": "poly", "v": [list(a), list(b), apex]})
+        elif what == "part-edge":
+            q = [a[0] + 0.75 * dx, a[1] + 0.75 * dy]
+            shapes.append({"k": "poly", "v": [mid, q, apex]})
+        elif what == "vertex":
+            shapes.append({"k": "poly", "v": [list(a), [apex[0] + 0.25 * dx, apex[1] + 0.25 * dy],
+                                              [apex[0] - 0.25 * dx - k * out[0] * 0.5, apex[1] - 0.25 * dy - k * out[1] * 0.5]]})
+        elif what == "inside":
+            q = _interior_point(r, ring)
+            if q is not None:
+                e = 1 / 32.0
+                shapes.append(r.choice([{"k": "rect", "l": 2 * e, "w": 2 * e, "c": q, "o": 0.0},
+                                        {"k": "poly", "v": [[q[0] - e, q[1] - e], [q[0] + e, q[1] - e], [q[0], q[1] + e]]}]))
+        elif what == "around":
+            xs, ys = [v[0] for v in ring], [v[1] for v in ring]
+            m = r.choice([0.0, 0.0625, 1.0])               # 0: the box touches the polygon's extreme vertices from outside in
+            shapes.append({"k": "rect", "l": max(xs) - min(xs) + 2 * m, "w": max(ys) - min(ys) + 2 * m,
+                           "c": [(max(xs) + min(xs)) / 2, (max(ys) + min(ys)) / 2], "o": 0.0})
+        elif what == "off":
+            e = r.choice([1 / 16.0, 1 / 256.0])
+            sh = [e * (1 if out[0] > 0 else -1 if out[0] < 0 else 0), e * (1 if out[1] > 0 else -1 if out[1] < 0 else 0)]
+            shapes.append({"k": "poly", "v": [[a[0] + sh[0], a[1] + sh[1]], [b[0] + sh[0], b[1] + sh[1]],
+                                              [apex[0] + sh[0], apex[1] + sh[1]]]})
+        elif what == "across":
+            shapes.append({"k": "poly", "v": [[mid[0] - 0.25 * out[0], mid[1] - 0.25 * out[1]], apex,
+                                              [apex[0] + 0.25 * dx, apex[1] + 0.25 * dy]]})
+        elif what == "rect-side":
+            xs, ys = [v[0] for v in ring], [v[1] for v in ring]
+            side = r.choice(["right", "top"])
+            v = r.choice([q for q in ring if (q[0] == max(xs) if side == "right" else q[1] == max(ys))])
+            if side == "right":
+                shapes.append({"k": "rect", "l": 1.0, "w": r.choice([0.5, 2.0]), "c": [v[0] + 0.5, v[1] + r.choice([0.0, 0.25, -0.25])],
+                               "o": 0.0})
+            else:
+                shapes.append({"k": "rect", "l": r.choice([0.5, 2.0]), "w": 1.0, "c": [v[0] + r.choice([0.0, 0.25, -1.0]), v[1] + 0.5],
+                               "o": 0.0})
+        elif what == "circ":
+            rad = r.choice([0.5, 1.0, 2.0, 4.0])
+            f = r.choice([0.0, 0.25, 0.45, 0.55, 1.0, 2.5])
+            shapes.append({"k": "circ", "r": rad, "c": [mid[0] + round(f * rad * 16) / 16.0 * (1 if out[0] > 0 else -1 if out[0] < 0 else 0),
+                                                        mid[1] + round(f * rad * 16) / 16.0 * (1 if out[1] > 0 else -1 if out[1] < 0 else 0)]})
+        elif what == "rot":
+            shapes.append({"k": "rect", "l": r.choice([1.0, 4.0]), "w": r.choice([0.5, 2.0]), "c": mid,
+                           "o": r.choice([0.3, -1.2, math.pi / 2, r.uniform(-3, 3)])})
+        else:
+            s = geom.gen_shape(r, kinds=("poly", "rect"), exact=True)
+            shapes.append(s)
+    shapes = [s for s in shapes if s["k"] != "poly" or (len(set(map(tuple, s["v"]))) == len(s["v"])
+                                                         and geom.shoelace(geom.ring_of(s["v"])) != 0)]
+    return {"kind": "meets", "ring": [list(v) for v in ring], "shapes": shapes}
+
+
+def run_meets(ctx, case, model=True):
+    """polygon.shapely_object.intersects(shape.shapely_object) vs the exact predicates (model: ringsMeet / discMeetsRing)."""
+    import numpy as np
+    from commonroad.geometry.shape import Polygon
+    ring_f, shapes = case["ring"], case["shapes"]
+    ctx.case(case)
+    ring = geom.ring_of(ring_f)
+    pa = Polygon(np.array(ring_f, dtype=float)).shapely_object
+    impl, mask = [], []
+    for spec in shapes:
+        ctx.tag("meets/" + spec["k"])
+        sub = dict(case, shapes=[spec])
+        so = geom.build_shape(spec).shapely_object
+        r1, r2 = call(pa.intersects, so), call(so.intersects, pa)
+        if r1[0] == "err" or r2[0] == "err":
+            _fail(ctx, f"C06/intersects/raises/{spec['k']}", f"intersects raises for polygon {ring_f} and {spec}", sub)
+            impl.append(None)
+            mask.append(True)
+            continue
+        got = bool(r1[1])
+        impl.append([got, bool(r2[1])])
+        t, a = geom.shape_meets_ring(spec, ring, exported=True, band=BAND)
+        ac = geom.shape_meets_ring(spec, ring, exported=True, band=BAND, circ_scale=CODE_CIRC_SCALE)[1] if spec["k"] == "circ" else a
+        mask.append(ac)
+        if bool(r2[1]) != got:
+            _fail(ctx, f"C06/intersects/asymmetric/{spec['k']}", f"polygon {ring_f} intersects {spec}: {got}, the other way round: "
+                  f"{bool(r2[1])}", sub)
+        if spec["k"] == "circ":
+            continue                    # the exported circle is the known r/2 finding: compared with the model of the code only
+        if a:
+            ctx.excluded += 1
+            continue
+        if t and geom.spec_exact(spec) and geom.rings_intersect(ring, _spec_ring(spec), BAND)[1]:
+            ctx.tag("meets/touching")
+        ctx.tag("meets/true" if t else "meets/false")
+        if got != t:
+            _fail(ctx, f"C06/intersects/{'misses' if t else 'reports'}/{spec['k']}",
+                  f"exported geometries of polygon {ring_f} and {spec} intersect: {got}; the sets they denote share a point: {t}", sub)
+    if model and shapes:
+        m = ctx.driver.ask("C06", "meets", {"ring": wire_pts(ring_f), "shapes": [wire_shape(s) for s in shapes]})["ok"]
+        keep = [i for i, x in enumerate(mask) if not x]
+        ctx.compare(case, [impl[i] for i in keep], [m[i] for i in keep],
+                    "shapely intersects (both argument orders) vs CR.Geom.ringsMeet / discMeetsRing")
+
+
 def run_case(ctx, case, model=True):
     k = case["kind"]
     if k == "net":
         run_net(ctx, case, model)
     elif k == "shape":
         run_shape(ctx, case, model)
+    elif k == "meets":
+        run_meets(ctx, case, model)
     else:
         run_obst(ctx, case, model)
 
@@ -959,6 +1097,8 @@ def run(ctx):
         run_case(ctx, gen_shape_case(r))
     for _ in range(ctx.n(200)):
         run_case(ctx, gen_obst_case(r))
+    for _ in range(ctx.n(300)):
+        run_case(ctx, gen_meets_case(r))
 
 
 search = run
